@@ -6,7 +6,6 @@ From V Require Import Model.DateTime Model.C04.
 Import ListNotations.
 Open Scope Z_scope.
 Ltac Zify.zify_post_hook ::= Z.to_euclidean_division_equations.
-Set Default Timeout 20.  (* DEV *)
 
 Ltac solve_in := unfold in_i32, in_u32, in_i64, in_u64, in_range, i32_min, i32_max, u32_max,
   i64_min, i64_max, u64_max; lia.
